@@ -250,6 +250,36 @@ func runC01Scenario(sc c01Scenario, idx int, res *lib.Result) {
 // child: runs the scenarios idx in [from, to) except the skipped ones; writes the index being run to a
 // progress file first, so that the parent knows which scenario killed the process
 func runC01Child(res *lib.Result, tier string, seed int64, args []string) error {
+	if xs := os.Getenv("C01_EXTREME"); xs != "" {
+		var x int
+		fmt.Sscanf(xs, "%d", &x)
+		const d = 1000000
+		var src string
+		switch x {
+		case 0:
+			src = "local x = " + strings.Repeat("(", d) + "1" + strings.Repeat(")", d) + "\n"
+		case 1:
+			src = "if a then " + strings.Repeat("elseif b then ", d) + "end\n"
+		default:
+			src = "local x = a" + strings.Repeat(".b", d) + "\n"
+		}
+		sc := c01Scenario{kind: "extreme", files: map[string]string{"main.lua": src}, open: "main.lua"}
+		dir := lib.ScratchDir("c01x")
+		defer os.RemoveAll(dir)
+		lib.WriteWorkspace(dir, sc.files)
+		sess, err := lib.StartSession(dir, lib.AllChecksOptions())
+		if err != nil {
+			fmt.Printf("HANG -1 start: %v\n", err)
+			return nil
+		}
+		sess.Timeout = 20 * time.Second
+		sess.DidOpen("main.lua", src)
+		if _, err := sess.Hover("main.lua", 0, 7); err != nil {
+			fmt.Printf("HANG -1 hover: %v\n", err)
+		}
+		sess.Close()
+		return nil
+	}
 	var from, to int
 	fmt.Sscanf(os.Getenv("C01_RANGE"), "%d:%d", &from, &to)
 	skip := map[int]bool{}
@@ -291,7 +321,7 @@ func c01Describe(sc c01Scenario) string {
 }
 
 func runC01(res *lib.Result, tier string, seed int64, args []string) error {
-	n, batch := 64, 16
+	n, batch := 192, 24
 	if tier == "thorough" {
 		n, batch = 4000, 40
 	}
@@ -351,5 +381,41 @@ func runC01(res *lib.Result, tier string, seed int64, args []string) error {
 		}
 	}
 	res.Extra["scenario_kinds"] = kinds
+	if tier == "thorough" {
+		// extreme inputs (finding class K1): each in its own child, a crash or a stall is expected
+		for x := 0; x < 3; x++ {
+			progress := filepath.Join(work, "progress")
+			cmd := exec.Command(os.Args[0], "C01child", "--tier", tier, "--seed", fmt.Sprint(seed))
+			cmd.Env = append(os.Environ(), fmt.Sprintf("C01_EXTREME=%d", x), "C01_PROGRESS="+progress, "VERIF_WORK="+work)
+			out, err := cmd.CombinedOutput()
+			res.Dist("scenario.extreme")
+			if err != nil || strings.Contains(string(out), "HANG ") {
+				res.HitKnown("C01-K1", c01K1, fmt.Sprintf("extreme scenario %d (%s): %s", x, c01ExtremeName(x), lib.Trunc(lastLines(string(out), 6), 600)))
+				res.Dist("hit.C01-K1")
+			}
+		}
+	}
 	return nil
+}
+
+const c01K1 = "a Lua file with about a million nested syntactic levels or chained elements ('(' * 1e6, 'if a then elseif b then' * 1e6, 'a.b.b.b…' * 1e6; 2-24 MB of text): the recursive-descent parser / the analysis passes recurse once per level and Go aborts the process with 'fatal error: stack overflow' (not recoverable), or the request does not return within 20 s"
+
+func c01ExtremeName(x int) string {
+	return []string{"1,000,000 nested parentheses", "an if with 1,000,000 elseif branches", "a member chain a.b.b… of 1,000,000 links"}[x]
+}
+
+func lastLines(s string, n int) string {
+	l := strings.Split(strings.TrimSpace(s), "\n")
+	for i, x := range l {
+		if strings.Contains(x, "fatal error") || strings.Contains(x, "HANG ") {
+			if i+n < len(l) {
+				return strings.Join(l[i:i+n], "\n")
+			}
+			return strings.Join(l[i:], "\n")
+		}
+	}
+	if len(l) > n {
+		l = l[len(l)-n:]
+	}
+	return strings.Join(l, "\n")
 }
